@@ -193,6 +193,64 @@ def unusual_grammars():
     return gs
 
 
+def counted_grammars():
+    """Well-founded grammars with counted repetitions (`{n}`, `{n,}`, `{,m}`, `{n,m}`): alone, nested inside `*` / `+` /
+    `{k,}`, under `!` / `&`, in `@` / `$` / `!` rules, behind rule references, with the implicit skip.  With the default
+    options pest's optimizer unrolls them; with `#[pest_optimizer = false]` they become `RepeatMin` / `RepeatMinMax`."""
+    gs = []
+    WS = 'WHITESPACE = _{ " " }\n'
+    more = ["b", "ab", "aab", "aaab", "aaaab", "aabaab", "a b", "aa b", " aab", "aaaaab", "ababc", "aac"]
+
+    def add(name, text, inputs=more):
+        gs.append({"gid": "cnt_" + name, "text": text, "class": "valid", "unusual": True, "counted": True, "compile": True,
+                   "mutate": True, "inputs": list(inputs)})
+    add("star_mn", 'r = { ("a"{1,2})* ~ "b" }\n')
+    add("plus_mn", 'r = { ("a"{1,2})+ ~ "b" }\n')
+    add("min_mn", 'r = { ("a"{2,3}){1,} ~ "b" }\n')
+    add("star_exact", 'r = { ("a"{2})* ~ "b" }\n')
+    add("star_min", 'r = { ("a"{1,})* ~ "b" }\n')
+    add("star_max", 'r = { ("a"{,2} ~ "b")* ~ "c" }\n')
+    add("neg", 'r = { !("a"{1,2} ~ "b") ~ ANY* }\n')
+    add("neg_star", 'r = { !(("a"{1,2})* ~ "b") ~ ("a" | "b")* }\n')
+    add("pos_plus", 'r = { &(("a"{1,2})+ ~ "b") ~ ("a" | "b")+ }\n')
+    add("neg_in_star", 'r = { (!("a"{2,3}) ~ ANY)* ~ "a"* }\n')
+    add("pos_in_plus", 'r = { (&("a"{1,2}) ~ "a")+ ~ "b" }\n')
+    add("atomic", 'r = @{ ("a"{1,2})* ~ "b" }\n' + WS)
+    add("compound", 'r = ${ ("a"{1,3} ~ "b"?)* ~ "c" }\n' + WS)
+    add("nonatomic", 'r = !{ ("a"{1,2})* ~ "b" }\n' + WS)
+    add("ws", 'r = { ("a"{2,3})* ~ "b" }\n' + WS)
+    add("ws_comment", 'r = { ("a"{1,2})+ ~ "b" }\n' + WS + 'COMMENT = @{ "#" }\n')
+    add("choice", 'r = { (("a" | "b"){1,2})* ~ "c" }\n')
+    add("nested", 'r = { (("a"{1,2}){1,2})* ~ "b" }\n')
+    add("nested_min", 'r = { (("a"{2}){1,})+ ~ "b"{,2} }\n')
+    add("min_min", 'r = { ("a"{1,}){2,} | "b" }\n')
+    add("rule_exact", 'r = { (x{2})* ~ "b" }\nx = { "a" }\n')
+    add("rule_mn", 'r = { (x{1,2})* ~ "b" }\nx = @{ "a" ~ "c"? }\n')
+    add("silent", 'r = { x* ~ "b" }\nx = _{ "a"{1,2} }\n')
+    add("atomic_ref", 'r = { x* ~ "b" }\nx = @{ "a"{1,2} }\n' + WS)
+    add("opt", 'r = { ("a"{1,2})? ~ "b" }\n')
+    add("push", 'r = { PUSH("a"{1,2}) ~ "b" ~ POP }\n')
+    add("push_star", 'r = { (PUSH("a"{1,2}) ~ "b")* ~ "c" }\n')
+    add("in_choice_star", 'r = { ("b" | "a"{2,3})* ~ "c" }\n')
+    add("seq_body", 'r = { (("a" ~ "b"){1,2})* ~ "c" }\n')
+    add("insens", 'r = { (^"a"{1,2})* ~ "b" }\n', more + ["AaB", "Ab"])
+    add("range", "r = { ('a'..'b'{1,2})* ~ \"c\" }\n")
+    add("multibyte", 'r = { ("é"{1,2})* ~ "a" }\n', ["a", "éa", "ééa", "éééa", "é"])
+    add("soi_eoi", 'r = { SOI ~ ("a"{2})* ~ EOI }\n')
+    add("two_levels", 'r = { (y ~ "c")* ~ "b" }\ny = { ("a"{1,2})+ }\n', more + ["acb", "aacacb", "aaacb"])
+    add("min_in_star_atomic", 'r = ${ (("a"{2,} ~ "b"){1,2})* ~ "c" }\n', more + ["aabc", "aabaabc", "aabaabaabc"])
+    add("nullable_bounded", 'r = { (("a"?){,2} ~ "b")* ~ "c" }\n', more + ["bc", "abbc", "aabc"])
+    return gs
+
+
+COUNTED = re.compile(r"\((repexact|repmin|repmax|repminmax) ")
+
+
+def has_counted(g):
+    """A counted repetition occurs in pest_meta's un-optimized AST of the grammar."""
+    return bool(COUNTED.search(g.get("sexp", "")))
+
+
 # ---------------------------------------------------------------------------------------------
 # corpus: ill-formed families.  A core is (rules, focus): rules = [(name, body)], the context is wrapped
 # around the body of rule `focus`; rule names ra..re never occur inside literals, so renaming is textual.
@@ -601,6 +659,7 @@ def build_corpus(tier, seed):
     for g in corpus.random_grammars(seed, 150 if quick else 600):
         gs.append({"gid": g["gid"], "text": g["text"], "class": "valid", "random": True})
     gs += unusual_grammars()
+    gs += counted_grammars()
     valid = list(gs)
     per_family = 100 if quick else 420
     for cls in FAMILIES:
@@ -623,8 +682,8 @@ def _cargo(ws, args, tier):
     return subprocess.run(["cargo"] + args, cwd=ws, env=dict(corpus.ENV, CARGO_TARGET_DIR=target_dir(tier)), capture_output=True, text=True)
 
 
-def failing_bins(stderr):
-    return sorted({int(m) for m in re.findall(r"could not compile `b(\d+)`", stderr)})
+def failing_bins(stderr, prefix="b"):
+    return sorted({int(m) for m in re.findall(r"could not compile `" + prefix + r"(\d+)`", stderr)})
 
 
 def rustc_errors(stderr):
@@ -633,7 +692,7 @@ def rustc_errors(stderr):
     return stderr[m.start():] if m else stderr[-1500:]
 
 
-def bisect_guilty(glist, stats, tier, suspects=()):
+def bisect_guilty(glist, stats, tier, suspects=(), attrs=""):
     """Grammars of one failing crate whose own derive expansion does not type-check; -> [(g, rustc text)].
     `suspects`: gids whose module contains a line rustc pointed at; they are tried first (1 + |suspects|
     checks when the hint is right), plain bisection otherwise."""
@@ -641,7 +700,7 @@ def bisect_guilty(glist, stats, tier, suspects=()):
 
     def check(sub):
         subprocess.call(["rm", "-rf", os.path.join(ws, "b0")])
-        corpus.emit_workspace(sub, ws, 1, with_pest=False)
+        corpus.emit_workspace(sub, ws, 1, attrs=attrs, with_pest=False)
         p = _cargo(ws, ["check", "--offline", "-q"], tier)
         stats["bisect_checks"] = stats.get("bisect_checks", 0) + 1
         return p.returncode == 0, p.stderr
@@ -667,12 +726,12 @@ def bisect_guilty(glist, stats, tier, suspects=()):
     return rec(list(glist))
 
 
-def error_suspects(ws, stderr):
+def error_suspects(ws, stderr, prefix="b"):
     """{bin: gids} of the grammar modules containing a source line of a rustc diagnostic."""
     out = {}
-    for b, line in set(re.findall(r"--> b(\d+)/src/main\.rs:(\d+)", stderr)):
+    for b, line in set(re.findall(r"--> " + prefix + r"(\d+)/src/main\.rs:(\d+)", stderr)):
         try:
-            src = open(os.path.join(ws, f"b{b}", "src", "main.rs")).read().split("\n")
+            src = open(os.path.join(ws, f"{prefix}{b}", "src", "main.rs")).read().split("\n")
         except OSError:
             continue
         gid = None
@@ -691,12 +750,14 @@ def _placeholder(g):
     return dict(g, text="".join(f'zz{i} = {{ "x" }}\n' for i in range(n)), rules=[(f"zz{i}", "normal") for i in range(n)], placeholder=True)
 
 
-def compile_sample(ctx, sample, tier, stats):
-    """-> (compiled grammars, where) ; reports non-compiling grammars as violations."""
-    ws = os.path.join(common.BUILD, f"ws_c11_{tier}")
+def compile_sample(ctx, sample, tier, stats, attrs="", prefix="b", wsname=None, report=True):
+    """-> (compiled grammars, where) ; reports non-compiling grammars as violations (`report`: only for the default
+    options; a grammar that does not compile under another option set belongs to C20 and is only dropped here).
+    Crate names are `<prefix>K`: they must differ between the workspaces that share the tier's target directory."""
+    ws = wsname or os.path.join(common.BUILD, f"ws_c11_{tier}")
     current = list(sample)
     for attempt in range(4):
-        where = corpus.emit_workspace(current, ws, suites.NBINS, with_pest=False)
+        where = corpus.emit_workspace(current, ws, suites.NBINS, attrs=attrs, with_pest=False, prefix=prefix)
         t0 = time.time()
         p = _cargo(ws, ["build", "--offline", "-q", "--keep-going"], tier)
         if p.returncode != 0 and "keep-going" in p.stderr and "unexpected argument" in p.stderr:
@@ -707,29 +768,32 @@ def compile_sample(ctx, sample, tier, stats):
             bindir = os.path.join(ws, "bin")
             os.makedirs(bindir, exist_ok=True)
             for b in sorted(set(where.values())):
-                dst = os.path.join(bindir, f"b{b}")
+                dst = os.path.join(bindir, f"{prefix}{b}")
                 if os.path.lexists(dst):
                     os.remove(dst)
-                src = os.path.join(target_dir(tier), "debug", f"b{b}")
+                src = os.path.join(target_dir(tier), "debug", f"{prefix}{b}")
                 try:
                     os.link(src, dst)
                 except OSError:
                     subprocess.check_call(["cp", src, dst])
             return [g for g in current if not g.get("placeholder")], where
-        bins = failing_bins(p.stderr)
+        bins = failing_bins(p.stderr, prefix)
         if not bins:
             raise RuntimeError("C11 compile workspace fails outside the derived crates:\n" + p.stderr[-3000:])
-        hints = error_suspects(ws, p.stderr)
+        hints = error_suspects(ws, p.stderr, prefix)
         guilty = []
         for b in bins:
             glist = [g for g in current if where[g["gid"]] == b and not g.get("placeholder")]
-            found = bisect_guilty(glist, stats, tier, hints.get(b, ()))
+            found = bisect_guilty(glist, stats, tier, hints.get(b, ()), attrs)
             if not found:
-                raise RuntimeError(f"crate b{b} of the C11 workspace fails but every grammar of it checks alone:\n" + rustc_errors(p.stderr)[:2000])
+                raise RuntimeError(f"crate {prefix}{b} of the C11 workspace fails but every grammar of it checks alone:\n" + rustc_errors(p.stderr)[:2000])
             guilty += found
         for g, err in guilty:
-            ctx.violations.append({"what": "derive output does not compile for a grammar pest accepts",
-                                   "case": {"grammar": g["text"], "gid": g["gid"], "class": g["class"]}, "rustc": rustc_errors(err)[:1500]})
+            if report:
+                ctx.violations.append({"what": "derive output does not compile for a grammar pest accepts",
+                                       "case": {"grammar": g["text"], "gid": g["gid"], "class": g["class"]}, "rustc": rustc_errors(err)[:1500]})
+            else:
+                stats.setdefault("not_compiling_detail", []).append({"gid": g["gid"], "grammar": g["text"][:200], "rustc": rustc_errors(err)[:300]})
         bad = {g["gid"] for g, _ in guilty}
         stats.setdefault("not_compiling", []).extend(sorted(bad))
         current = [_placeholder(g) if g["gid"] in bad else g for g in current]
@@ -740,12 +804,61 @@ def compile_sample(ctx, sample, tier, stats):
 # ---------------------------------------------------------------------------------------------
 # oracle C helpers
 
+ENTRIES = ("parse_partial", "check_partial", "parse", "check")
+
+
+def run_bins_bounded(prefix, where, cases, bindir, max_bad=3):
+    """Like suites.run_bins, but a grammar is abandoned after `max_bad` cases that did not return (the watchdog of
+    `vh_common::serve` prints `v=timeout` after 20 s and exits with code 3; a crash kills the process without an
+    answer): its remaining cases are answered `v=skipped`.  Keeps the cost of a looping parser bounded."""
+    per = {}
+    for no, c in enumerate(cases):
+        per.setdefault(where[c[0]], []).append((no, c))
+    out = [None] * len(cases)
+
+    def run(b):
+        todo, res, bad = per[b], {}, {}
+        while todo:
+            p = subprocess.run([os.path.join(bindir, f"{prefix}{b}")], input="".join(f"{no} {suites.case_line(c)}\n" for no, c in todo),
+                               capture_output=True, text=True)
+            n = 0
+            for l in p.stdout.splitlines():
+                no, _, rest = l.partition(" ")
+                if n < len(todo) and no == str(todo[n][0]):
+                    res[todo[n][0]] = rest
+                    n += 1
+            if p.returncode == 0 and n >= len(todo):
+                break
+            if n and res[todo[n - 1][0]].startswith("v=timeout"):
+                gid = todo[n - 1][1][0]
+            elif n < len(todo):
+                # died without answering the next case (stack overflow, abort)
+                gid = todo[n][1][0]
+                res[todo[n][0]] = "v=crash"
+                n += 1
+            else:
+                break
+            bad[gid] = bad.get(gid, 0) + 1
+            rest = todo[n:]
+            dead = {g for g, k in bad.items() if k >= max_bad}
+            for no, c in rest:
+                if c[0] in dead:
+                    res[no] = "v=skipped"
+            todo = [(no, c) for no, c in rest if c[0] not in dead]
+        return res
+    with concurrent.futures.ThreadPoolExecutor(suites.NBINS) as ex:
+        for res in ex.map(run, sorted(per)):
+            for no, l in res.items():
+                out[no] = l
+    return [o if o is not None else "v=missing" for o in out]
+
+
 def count_inputs(nalpha, maxlen):
     return sum(nalpha ** k for k in range(maxlen + 1))
 
 
 def plan_inputs(g, budget, maxlen):
-    """(maxlen, alphabet cap) for one grammar so that rules x 2 entries x inputs stays within the budget."""
+    """(maxlen, alphabet cap) for one grammar so that rules x 4 entries x inputs stays within the budget."""
     has_skip = bool(re.search(r"WHITESPACE|COMMENT", g["text"]))
     nr = max(1, len(g["rules"]))
     choices = [(maxlen, 5), (maxlen, 4), (maxlen, 3), (maxlen - 1, 4), (maxlen - 1, 3), (maxlen - 1, 2), (maxlen - 2, 3), (2, 2), (1, 2)]
@@ -753,7 +866,7 @@ def plan_inputs(g, budget, maxlen):
         n = min(cap, max(1, len(g["alphabet"])))
         if has_skip and " " not in g["alphabet"][:n]:
             n = min(n, 4) + 1
-        if nr * 2 * (count_inputs(n, ml) + 6) <= budget:
+        if nr * len(ENTRIES) * (count_inputs(n, ml) + 6 + len(g.get("inputs", []))) <= budget:
             return ml, cap
     return 1, 2
 
@@ -769,12 +882,13 @@ PEST_BUILTINS = {"ANY", "SOI", "EOI", "PEEK", "PEEK_ALL", "POP", "POP_ALL", "DRO
                  "ASCII_ALPHA_UPPER", "ASCII_ALPHA", "ASCII_ALPHANUMERIC", "WHITESPACE", "COMMENT"}
 
 
-def lean_wf_mirror(sx):
-    """Python mirror of `wfCheck (gen g)` on dump_ast's optimized expressions: `nullable` (least fixpoint),
+def lean_wf_mirror(sx, which=3):
+    """Python mirror of `wfCheck (gen g)` on dump_ast's optimized expressions (`which=3`; `which=4`: the un-optimized
+    AST that `#[pest_optimizer = false]` walks, where counted repetitions are `.rep n (some m)` nodes): `nullable` (least fixpoint),
     `heads` with the pseudo id of the skip type after a nullable prefix of a sequence whose skip flag is not `0`
     (rule kinds @ and $ give flag `0`), `Progressing` (the body of every unbounded repetition and of `Skipped` non-nullable),
     `NoLeftRec` (the head graph over rules + skip type is acyclic)."""
-    rules = [(r[1], r[2], r[3]) for r in sx[2:]]
+    rules = [(r[1], r[2], r[which]) for r in sx[2:]]
     names = {n for n, _, _ in rules}
     flag = {n: ("zero" if k in ("atomic", "compound") else "one" if k == "nonatomic" else "inh") for n, k, _ in rules}
     nul = {n: False for n in names}
@@ -884,7 +998,7 @@ def run_driver_lines(sexp_path, lines, nproc=8):
     return [o if o is not None else "v=missing" for o in out]
 
 
-def lean_static(ctx, compiled, sexp_path):
+def lean_static(ctx, compiled, sexp_path, cmd="wf", which=3, label=""):
     """Static part of the tie.  Returns {gid: driver report}; records
     * wf-static:lean-vs-python-mirror — `wfCheck` of the Lean model (through `model_driver`, command `wf <gid>`) against an
       independent python implementation of the same definitions on pest_meta's AST: verdict, the failing hypothesis and the
@@ -892,7 +1006,8 @@ def lean_static(ctx, compiled, sexp_path):
     * wf-static:analyse-implies-lean — the corpus filter `corpus.analyse` (stricter: it ignores rule kinds and also looks at
       the un-optimized AST) never calls a grammar well-founded that the Lean definitions reject."""
     suites.ensure_driver()
-    lines = run_driver_lines(sexp_path, [f"wf {g['gid']}" for g in compiled], nproc=4)
+    lines = run_driver_lines(sexp_path, [f"{cmd} {g['gid']}" for g in compiled], nproc=4)
+    t_mirror, t_impl = f"wf-static{label}:lean-vs-python-mirror", f"wf-static{label}:analyse-implies-lean"
     rep, nd, nimp = {}, 0, 0
     both = lean_only = neither = 0
     why = {"noleftrec": 0, "progressing": 0}
@@ -900,23 +1015,23 @@ def lean_static(ctx, compiled, sexp_path):
         d = suites.parse_obs(l)
         rep[g["gid"]] = d
         if "wf" not in d:
-            ctx.tie_broken("wf-static:lean-vs-python-mirror", {"error": "model_driver did not answer `wf`", "gid": g["gid"], "line": l})
+            ctx.tie_broken(t_mirror, {"error": f"model_driver did not answer `{cmd}`", "gid": g["gid"], "line": l})
             nd += 1
             continue
         sx = corpus.parse_sexp(g["sexp"])
-        m = lean_wf_mirror(sx)
+        m = lean_wf_mirror(sx, which)
         lean_nul = sorted(x for x in d.get("nul", "").split(",") if x and x != "EOI")
         same = ((d["wf"] == "1") == m["wf"] and (d["noleftrec"] == "1") == m["noleftrec"] and (d["progressing"] == "1") == m["progressing"]
                 and lean_nul == m["nul"] and d.get("nulok") == "1")
         if not same:
             nd += 1
             if nd <= 5:
-                ctx.tie_broken("wf-static:lean-vs-python-mirror", {"gid": g["gid"], "grammar": g["text"][:400], "lean": l, "python": m})
+                ctx.tie_broken(t_mirror, {"gid": g["gid"], "grammar": g["text"][:400], "lean": l, "python": m})
         a_ok = g.get("wf_reason") is None
         if a_ok and d["wf"] != "1":
             nimp += 1
             if nimp <= 5:
-                ctx.tie_broken("wf-static:analyse-implies-lean", {"gid": g["gid"], "grammar": g["text"][:400], "lean": l, "analyse": "well-founded"})
+                ctx.tie_broken(t_impl, {"gid": g["gid"], "grammar": g["text"][:400], "lean": l, "analyse": "well-founded"})
         if d["wf"] == "1":
             both += a_ok
             lean_only += not a_ok
@@ -925,15 +1040,15 @@ def lean_static(ctx, compiled, sexp_path):
             for k in why:
                 why[k] += d.get(k) == "0"
     n = len(compiled)
-    ctx.ties["wf-static:lean-vs-python-mirror"] = {"cases": n, "agree": n - nd, "observables": ["wf", "noleftrec", "progressing", "nullable rules"]}
-    ctx.ties["wf-static:analyse-implies-lean"] = {"cases": n, "agree": n - nimp, "observables": ["corpus.analyse is None => wfCheck"]}
-    ctx.coverage.setdefault("distribution", {})["wellfounded_static"] = {
+    ctx.ties[t_mirror] = {"cases": n, "agree": n - nd, "observables": ["wf", "noleftrec", "progressing", "nullable rules"]}
+    ctx.ties[t_impl] = {"cases": n, "agree": n - nimp, "observables": ["corpus.analyse is None => wfCheck"]}
+    ctx.coverage.setdefault("distribution", {})["wellfounded_static" + label] = {
         "compiled": n, "lean_and_analyse": both, "lean_only(analyse stricter: bounded repetitions in the raw AST, atomic rule kinds)": lean_only,
         "not_wellfounded": neither, "failing_hypothesis": why}
     return rep
 
 
-def tie_wf(ctx, compiled, rep, cases, impl_lines, sexp_path):
+def tie_wf(ctx, compiled, rep, cases, impl_lines, sexp_path, cmd="wf", label=""):
     """Dynamic part: every case of a grammar with `wfCheck = true` is run on the Lean model with exactly the fuel of theorem
     `C11_terminates_checked` (`entryFuel G (wfRank G) |input|`, command `wf <gid> <rule> <entry> <hex>`): the model must
     never answer `oof` (the theorem, executed), and its verdict (and end offset for `check_partial`) must be the
@@ -949,7 +1064,8 @@ def tie_wf(ctx, compiled, rep, cases, impl_lines, sexp_path):
     idx = [k for k in idx if cases[k][0] not in big] + rnd.sample(bigidx, min(len(bigidx), 400))
     if len(idx) > limit:
         idx = sorted(rnd.sample(idx, limit))
-    lines = run_driver_lines(sexp_path, [f"wf {cases[k][0]} {cases[k][1]} {cases[k][2]} {corpus.hexs(cases[k][6])}" for k in idx])
+    lines = run_driver_lines(sexp_path, [f"{cmd} {cases[k][0]} {cases[k][1]} {cases[k][2]} {corpus.hexs(cases[k][6])}" for k in idx])
+    t_oof, t_v = f"wf-fuel{label}:model-never-oof", f"wf-fuel{label}:verdict"
     noof = nbad = ncmp = 0
     maxfuel = 0
     for k, l in zip(idx, lines):
@@ -959,21 +1075,21 @@ def tie_wf(ctx, compiled, rep, cases, impl_lines, sexp_path):
         if mo.get("v") not in ("ok", "fail"):
             noof += 1
             if noof <= 5:
-                ctx.tie_broken("wf-fuel:model-never-oof", {"case": {"gid": c[0], "grammar": by_gid[c[0]]["text"][:300], "rule": c[1], "entry": c[2], "input": c[6]},
+                ctx.tie_broken(t_oof, {"case": {"gid": c[0], "grammar": by_gid[c[0]]["text"][:300], "rule": c[1], "entry": c[2], "input": c[6]},
                                                            "model": l, "note": "the model ran out of the fuel theorem C11_terminates_checked promises to suffice"})
             continue
         if uni[c[0]] or io.get("v") not in ("ok", "fail"):
             continue
         ncmp += 1
-        keys = ["v", "end"] if c[2] == "check_partial" else ["v"]
+        keys = ["v", "end"] if c[2] in ("check_partial", "parse_partial") else ["v"]
         if any(mo.get(x) != io.get(x) for x in keys):
             nbad += 1
             if nbad <= 5:
-                ctx.tie_broken("wf-fuel:verdict", {"case": {"gid": c[0], "grammar": by_gid[c[0]]["text"][:300], "rule": c[1], "entry": c[2], "input": c[6]},
+                ctx.tie_broken(t_v, {"case": {"gid": c[0], "grammar": by_gid[c[0]]["text"][:300], "rule": c[1], "entry": c[2], "input": c[6]},
                                                    "model": {x: mo.get(x) for x in keys}, "impl": {x: io.get(x) for x in keys}})
-    ctx.ties["wf-fuel:model-never-oof"] = {"cases": len(idx), "agree": len(idx) - noof, "observables": ["v != oof with fuel = entryFuel G (wfRank G) |input|"]}
-    ctx.ties["wf-fuel:verdict"] = {"cases": ncmp, "agree": ncmp - nbad, "observables": ["v", "end (check_partial)"]}
-    ctx.coverage.setdefault("distribution", {})["theorem_fuel"] = {"cases": len(idx), "largest_fuel_bound": maxfuel}
+    ctx.ties[t_oof] = {"cases": len(idx), "agree": len(idx) - noof, "observables": ["v != oof with fuel = entryFuel G (wfRank G) |input|"]}
+    ctx.ties[t_v] = {"cases": ncmp, "agree": ncmp - nbad, "observables": ["v", "end (parse_partial, check_partial)"]}
+    ctx.coverage.setdefault("distribution", {})["theorem_fuel" + label] = {"cases": len(idx), "largest_fuel_bound": maxfuel}
 
 
 
@@ -1242,56 +1358,83 @@ def check_C11(ctx):
     dist["compiled_wellfounded"] = len(wf)
     dist["compiled_wellfounded_by_corpus_analyse"] = sum(g["wf_reason"] is None for g in compiled)
     dist["compiled_not_wellfounded"] = len(not_wf)
-    cap = 2000000 if quick else 6000000
-    maxlen = 4 if quick else 5
-    budget = cap // max(1, len(wf))
-    cases, probe = [], []
-    plan_hist = {}
-    for g in wf:
-        ml, acap = plan_inputs(g, budget, maxlen)
-        plan_hist[f"len<={ml},alphabet<={acap}"] = plan_hist.get(f"len<={ml},alphabet<={acap}", 0) + 1
-        g2 = dict(g)
-        g2["alphabet"] = list(g["alphabet"])[:acap]
-        ins = corpus.inputs_for(g2, rnd, ml, 6)
-        for (rule, kind) in g["rules"]:
-            for entry in ("parse", "check_partial"):
-                for j, s in enumerate(ins):
-                    c = (g["gid"], rule, entry, "str", 0, 0, s)
-                    (probe if j in (0, 1, len(ins) - 1) else cases).append(c)
     by_gid = {g["gid"]: g for g in compiled}
-    ws_dir = os.path.join(common.BUILD, f"ws_c11_{tier}")
-    t0 = time.time()
+    maxlen = 4 if quick else 5
+    inputs_of, plan_hist = {}, {}
 
-    def judge(cs, lines):
-        bad_gids = set()
+    def cases_for(glist, cap):
+        budget = cap // max(1, len(glist))
+        cs = []
+        for g in glist:
+            if g["gid"] not in inputs_of:
+                ml, acap = plan_inputs(g, budget, maxlen)
+                plan_hist[f"len<={ml},alphabet<={acap}"] = plan_hist.get(f"len<={ml},alphabet<={acap}", 0) + 1
+                g2 = dict(g)
+                g2["alphabet"] = list(g["alphabet"])[:acap]
+                inputs_of[g["gid"]] = corpus.inputs_for(g2, rnd, ml, 6)
+            for (rule, kind) in g["rules"]:
+                for entry in ENTRIES:
+                    for s in inputs_of[g["gid"]]:
+                        cs.append((g["gid"], rule, entry, "str", 0, 0, s))
+        return cs
+
+    def judge(cs, lines, options):
+        verdicts = {}
         for c, l in zip(cs, lines):
             v = suites.parse_obs(l).get("v", "missing")
+            verdicts[v] = verdicts.get(v, 0) + 1
             if v in ("nodispatch", "badentry", "badform"):
                 raise RuntimeError(f"C11 runner does not know the case {c}: {l}")
             if v in ("timeout", "crash", "missing", "panic"):
-                bad_gids.add(c[0])
-                what = ("parse panicked on a well-founded accepted grammar" if v == "panic" else
-                        f"parse did not return ({v}) on a well-founded accepted grammar")
-                if sum(1 for x in ctx.violations if x["case"].get("gid") == c[0] and x["what"] == what) < 3:
-                    ctx.violations.append({"what": what, "case": {"grammar": by_gid[c[0]]["text"], "gid": c[0], "rule": c[1], "entry": c[2], "input": c[6]}})
-        return bad_gids
-    # a first pass with three inputs per (rule, entry): a grammar that hangs costs 20 s per case, so it is reported and dropped here
-    probe_lines = suites.run_bins("b", where, probe, profile="bin", target=ws_dir) if probe else []
-    hung = judge(probe, probe_lines)
-    cases = [c for c in cases if c[0] not in hung]
-    lines = suites.run_bins("b", where, cases, profile="bin", target=ws_dir) if cases else []
-    judge(cases, lines)
+                what = ("parse panicked on a well-founded grammar" if v == "panic" else
+                        f"parse does not return on a well-founded grammar ({v})")
+                if sum(1 for x in ctx.violations if x["case"].get("gid") == c[0] and x["case"].get("options") == options) < 3:
+                    ctx.violations.append({"what": what, "case": {"grammar": by_gid[c[0]]["text"], "gid": c[0], "options": options,
+                                                                  "rule": c[1], "entry": c[2], "input": c[6]}})
+        return verdicts
+    # default options: every statically well-founded compiled grammar, the four entry points
+    t0 = time.time()
+    ws_dir = os.path.join(common.BUILD, f"ws_c11_{tier}")
+    all_cases = cases_for(wf, 3200000 if quick else 9000000)
+    all_lines = run_bins_bounded("b", where, all_cases, os.path.join(ws_dir, "bin")) if all_cases else []
+    verdicts = judge(all_cases, all_lines, "(default)")
     timing["run_s"] = round(time.time() - t0, 1)
-    all_cases, all_lines = probe + cases, probe_lines + lines
     ctx.evaluations += len(all_cases)
-    verdicts = {}
     for c, l in zip(all_cases, all_lines):
+        if len(ctx.samples) >= 5:
+            break
         o = suites.parse_obs(l)
-        verdicts[o.get("v", "missing")] = verdicts.get(o.get("v", "missing"), 0) + 1
-        if len(ctx.samples) < 5 and o.get("v") == "ok" and len(c[6]) >= 3 and not any(s["case"].get("gid") == c[0] for s in ctx.samples):
+        if o.get("v") == "ok" and len(c[6]) >= 3 and not any(s["case"].get("gid") == c[0] for s in ctx.samples):
             ctx.samples.append({"case": {"gid": c[0], "grammar": by_gid[c[0]]["text"][:200], "rule": c[1], "entry": c[2], "input": c[6]},
                                 "impl": {k: v for k, v in o.items() if k in ("v", "end", "stk")}})
-    dist["run"] = {"cases": len(all_cases), "verdicts": verdicts, "input_plan": plan_hist, "dropped_after_probe": sorted(hung)}
+    dist["run"] = {"cases": len(all_cases), "entries": list(ENTRIES), "verdicts": verdicts, "input_plan": dict(plan_hist)}
+
+    # `#[pest_optimizer = false]`: the un-optimized AST keeps counted repetitions, which become RepeatMin / RepeatMinMax
+    # (with the default options pest's optimizer unrolls them, so those loops are never instantiated)
+    t0 = time.time()
+    RAW = "#[pest_optimizer = false]"
+    counted = [g for g in wf if has_counted(g)]
+    nraw = 120 if quick else 500
+    counted = [g for g in counted if g.get("counted")] + [g for g in counted if not g.get("counted")][:max(0, nraw - sum(bool(g.get("counted")) for g in counted))]
+    rstats = {}
+    raw_compiled, raw_where = compile_sample(ctx, counted, tier, rstats, attrs=RAW, prefix="c", wsname=os.path.join(common.BUILD, f"ws_c11_raw_{tier}"),
+                                             report=False) if counted else ([], {})
+    timing["raw_compile_s"] = round(time.time() - t0, 1)
+    lean_raw = lean_static(ctx, raw_compiled, sexp_path, cmd="wfraw", which=4, label="[raw]") if raw_compiled else {}
+    raw_wf = [g for g in raw_compiled if lean_raw.get(g["gid"], {}).get("wf") == "1"]
+    t0 = time.time()
+    raw_cases = cases_for(raw_wf, 1200000 if quick else 4000000)
+    raw_lines = run_bins_bounded("c", raw_where, raw_cases, os.path.join(common.BUILD, f"ws_c11_raw_{tier}", "bin")) if raw_cases else []
+    raw_verdicts = judge(raw_cases, raw_lines, RAW)
+    timing["raw_run_s"] = round(time.time() - t0, 1)
+    ctx.evaluations += len(raw_cases)
+    dist["run_raw_option"] = {"option": RAW, "grammars_with_counted_repetitions": len(counted), "compiled": len(raw_compiled),
+                              "wellfounded_raw_module": len(raw_wf), "from_counted_family": sum(bool(g.get("counted")) for g in raw_wf),
+                              "not_compiling_under_this_option (C20's business)": rstats.get("not_compiling", []),
+                              "cases": len(raw_cases), "verdicts": raw_verdicts}
+    if len(raw_wf) < 30:
+        ctx.tie_broken("corpus-coverage", {"error": f"only {len(raw_wf)} well-founded grammars with counted repetitions were run with {RAW} (need >= 30)",
+                                           "not_compiling": rstats.get("not_compiling_detail", [])[:3]})
     ctx.coverage["timing_s"] = timing
     ctx.rule_text = (
         f"{len(gs)} grammars: hand-written feature grammars and grammars with unusual constructs, seeded random grammars, programmatic variants "
@@ -1301,13 +1444,19 @@ def check_C11(ctx):
         "syntax errors, and seeded tree-edit mutants of the valid grammars.  Oracle A judges every grammar that pest_meta's parse/consume_rules "
         "rejects (derive must panic) or that pest's whole front end accepts (derive must not panic); a grammar is non-trivial when the validator "
         "rejects it for one of the six listed reasons, or when it is accepted and the generator emitted code.  Oracle B compiles a seeded sample of "
-        "the accepted grammars through the real derive macro; oracle C runs every rule (parse and check_partial) of the compiled grammars that "
+        "the accepted grammars through the real derive macro; oracle C runs every rule through the four entry points (parse_partial, check_partial, "
+        "parse, check) of the compiled grammars that "
         "are statically well-founded (decided by `wfCheck` of the Lean model, proved sound: no rule reaches itself through a nullable prefix, the "
         "implicit skip included; no unbounded repetition body or skip rule body may match empty; stack-reading terminals count as nullable) on all inputs up to length "
-        f"{maxlen} over (a cap of) the grammar's alphabet plus random longer ones, under a 20 s watchdog.  Outside the property: grammars rejected only by "
-        "validate_pairs (undefined / redefined rules, pest keywords as rule names: no verdict, counted), generator options other than the defaults, "
+        f"{maxlen} over (a cap of) the grammar's alphabet plus random longer ones, under a 20 s watchdog (a grammar is abandoned after 3 cases that do not return); "
+        "the well-founded grammars that contain a counted repetition (a hand-written family of them nested in `*`/`+`/`{k,}`, under predicates, in atomic rules, "
+        "plus those of the sample) are also compiled with `#[pest_optimizer = false]` — the only way RepeatMin/RepeatMinMax are instantiated — and run on the same inputs.  "
+        "Outside the property: grammars rejected only by "
+        "validate_pairs (undefined / redefined rules, pest keywords as rule names: no verdict, counted), whether a grammar compiles under non-default options (C20), "
         "and accepted grammars that are not well-founded (e.g. `(PEEK_ALL)*`, `!\"x\" ~ a`, non-atomic WHITESPACE bodies with a nullable prefix): "
         "they are compiled but not run.")
     t0 = time.time()
     tie_wf(ctx, compiled, lean, all_cases, all_lines, sexp_path)
+    if raw_cases:
+        tie_wf(ctx, raw_compiled, lean_raw, raw_cases, raw_lines, sexp_path, cmd="wfraw", label="[raw]")
     timing["lean_fuel_s"] = round(time.time() - t0, 1)
